@@ -8,6 +8,7 @@ import (
 	cfgapi "github.com/containers/nri-plugins/pkg/apis/config/v1alpha1"
 	policycfg "github.com/containers/nri-plugins/pkg/apis/config/v1alpha1/resmgr/policy"
 	blcfg "github.com/containers/nri-plugins/pkg/apis/config/v1alpha1/resmgr/policy/balloons"
+	resmgrapi "github.com/containers/nri-plugins/pkg/apis/resmgr/v1alpha1"
 	"github.com/containers/nri-plugins/pkg/verif/sysgen"
 )
 
@@ -380,6 +381,77 @@ func c04Scenarios(thorough bool) []*scenario {
 	if thorough {
 		add("bl/mem/asym/M3G-M2G-M5G", polBalloons, machineAsym(), []cfgSpec{blCfg("mem", memBl)},
 			[]podSpec{nsPod("a", "mem", tM3G, nil), nsPod("b", "two", tM2G, nil), nsPod("c", "two", tM5G, nil)}, lm)
+	}
+	return out
+}
+
+
+// ---------------------------------------------------------------------------
+// C12: opted-out containers (created with a non-empty runtime cpuset no pool or balloon can produce) next to ordinary ones
+
+func c12Scenarios(thorough bool) []*scenario {
+	var out []*scenario
+	add := func(name, pol string, m *sysgen.Spec, cfgs []cfgSpec, ps []podSpec, mn menu, ups []updSpec) *scenario {
+		s := &scenario{name: name, policy: pol, machine: m, cfgs: cfgs, pods: ps, menu: mn, updates: ups, depth: 5, maxInc: 1}
+		if thorough {
+			s.depth = 6
+		}
+		s.prefix = runAll(len(ps))
+		out = append(out, s)
+		return s
+	}
+	std := []cfgSpec{taCfg("rsv750m")}
+	ups := []updSpec{{label: "to-1500m", cpuReq: 1500, cpuLim: 1500, memLim: 100 * miB}}
+	full := menu{stop: true, remove: true, sync: true, update: true}
+	// 8-CPU machine variants of the pinned templates (cpus 0,7 span both NUMA nodes)
+	bePin8 := &tmpl{name: "BEpin8", initCpus: "0,7", initMems: "0-1"}
+	g2Pin8 := &tmpl{name: "G2pin8", cpuReq: 2000, cpuLim: 2000, memLim: 100 * miB, initCpus: "0,7", initMems: "0-1"}
+	m3Pin8 := &tmpl{name: "M3Gpin8", cpuReq: 500, cpuLim: 500, memLim: 3 * giB, initCpus: "0,7", initMems: "0"}
+
+	add("ta/optout/cpu-pod-level", polTA, machine16(), []cfgSpec{taCfg("rsv750m"), taCfg("rsv2", taReserved("cpuset:0,8"))},
+		[]podSpec{pod1("p", "default", "Guaranteed", tG2pin, map[string]string{annPreserveCPU + "/pod": "true"}), pod1("a", "default", "Guaranteed", tG2, nil), pod1("b", "default", "Burstable", tB500, nil)},
+		menu{stop: true, remove: true, sync: true, reconf: []int{0, 1}}, nil)
+	add("ta/optout/cpu-container-level+update", polTA, machine16(), std,
+		[]podSpec{pod1("p", "default", "Burstable", tB5pin, map[string]string{annPreserveCPU + "/container.c": "true"}), pod1("a", "default", "Guaranteed", tG2, nil), pod1("b", "default", "BestEffort", tBE, nil)},
+		full, ups)
+	add("ta/optout/mem-bare+widening", polTA, machine8(), std,
+		[]podSpec{pod1("p", "default", "Guaranteed", m3Pin8, map[string]string{annPreserveMem: "true"}), pod1("a", "default", "Guaranteed", tM3G, nil), pod1("b", "default", "Guaranteed", tM3G, nil)},
+		menu{stop: true, remove: true, sync: true}, nil)
+	add("ta/optout/both+BE", polTA, machine8(), std,
+		[]podSpec{pod1("p", "default", "BestEffort", bePin8, map[string]string{annPreserveCPU: "true", annPreserveMem + "/pod": "true"}), pod1("a", "default", "Guaranteed", tG2, nil), pod1("b", "default", "Guaranteed", tM3G, nil)},
+		menu{stop: true, remove: true, sync: true}, nil)
+	add("ta/optout/pinCPU-off", polTA, machine8(), []cfgSpec{taCfg("nocpu", taPin(false, true)), taCfg("pin", taPin(true, true))},
+		[]podSpec{pod1("p", "default", "Guaranteed", g2Pin8, nil), pod1("a", "default", "Guaranteed", tM3G, nil), pod1("b", "default", "Burstable", tB500, nil)},
+		menu{stop: true, remove: true, reconf: []int{0}}, nil)
+	add("ta/optout/pinMemory-off", polTA, machine8(), []cfgSpec{taCfg("nomem", taPin(true, false))},
+		[]podSpec{pod1("p", "default", "Guaranteed", m3Pin8, nil), pod1("a", "default", "Guaranteed", tM3G, nil), pod1("b", "default", "Guaranteed", tM3G, nil)},
+		menu{stop: true, remove: true, sync: true, reconf: []int{0}}, nil)
+	// balloons
+	no := false
+	yes := true
+	defs := []*blcfg.BalloonDef{
+		{Name: "nomem", Namespaces: []string{"nomem"}, MinCpus: 1, PinMemory: &no, ShareIdleCpusInSame: blcfg.CPUTopologyLevelSystem},
+		{Name: "mem", Namespaces: []string{"mem"}, MinCpus: 1, MaxCpus: 2, PreferNewBalloons: true, ShareIdleCpusInSame: blcfg.CPUTopologyLevelSystem},
+	}
+	preserve := func(c *cfgapi.BalloonsPolicy) {
+		c.Spec.Config.Preserve = &blcfg.ContainerMatchConfig{MatchExpressions: []resmgrapi.Expression{{Key: "pod/name", Op: resmgrapi.Equals, Values: []string{"p"}}}}
+	}
+	add("bl/optout/preserve-rule", polBalloons, machine8(), []cfgSpec{blCfg("pres", defs, preserve)},
+		[]podSpec{nsPod("p", "mem", g2Pin8, nil), nsPod("a", "mem", tG2, nil), nsPod("b", "mem", tM3G, nil)}, menu{stop: true, remove: true, sync: true, reconf: []int{0}}, nil)
+	add("bl/optout/type-pinMemory-off", polBalloons, machine8(), []cfgSpec{blCfg("nomem", defs)},
+		[]podSpec{nsPod("p", "nomem", m3Pin8, nil), nsPod("a", "mem", tM3G, nil), nsPod("b", "mem", tM3G, nil)}, menu{stop: true, remove: true, sync: true}, nil)
+	defs2 := []*blcfg.BalloonDef{
+		{Name: "pinmem", Namespaces: []string{"pinmem"}, MinCpus: 1, PinMemory: &yes},
+		{Name: "plain", Namespaces: []string{"plain"}, MinCpus: 1, MaxCpus: 2},
+	}
+	add("bl/optout/global-pinMemory-off", polBalloons, machine8(), []cfgSpec{blCfg("gnomem", defs2, blPin(true, false))},
+		[]podSpec{nsPod("p", "plain", m3Pin8, nil), nsPod("a", "pinmem", tM3G, nil), nsPod("b", "pinmem", tM3G, nil)}, menu{stop: true, remove: true, sync: true}, nil)
+	add("bl/optout/annotations", polBalloons, machine8(), []cfgSpec{blCfg("ann", defs)},
+		[]podSpec{nsPod("p", "mem", m3Pin8, map[string]string{annPreserveMem + "/container.c": "true"}), nsPod("q", "mem", g2Pin8, map[string]string{annPreserveCPU + "/pod": "true"}), nsPod("a", "mem", tM3G, nil), nsPod("b", "mem", tM3G, nil)},
+		menu{stop: true, remove: true}, nil)
+	if thorough {
+		add("bl/optout/pinCPU-off", polBalloons, machine8(), []cfgSpec{blCfg("nocpu", defs, blPin(false, true))},
+			[]podSpec{nsPod("p", "mem", g2Pin8, nil), nsPod("a", "mem", tG2, nil), nsPod("b", "nomem", tM3G, nil)}, menu{stop: true, remove: true, sync: true}, nil)
 	}
 	return out
 }
